@@ -61,7 +61,7 @@ theorem ctx_C04 (src : Str) (d : Nat)
     fun m h => ⟨_, Src.root, by simpa using h, fun hn => by cases hn⟩
   refine ⟨?_, ?_, ?_, ?_, ?_, ?_, ?_⟩
   · -- words
-    intro tok hT
+    intro tok hT _
     refine (C07.C07_nested d tok).weaken ?_ (fun _ h => h)
     rintro w ⟨expanded, parts, rfl, hp⟩
     rw [G_word]
@@ -109,7 +109,7 @@ theorem ctx_C04 (src : Str) (d : Nat)
     rintro p s ps ⟨fr, hs, hl, hb⟩
     exact ⟨fr, hs, hl, hb⟩
   · -- bare delimiter word
-    intro tok hT
+    intro tok hT _
     exact hroot _ ⟨tok, hT, by simp, 0, C07.PartsOK.nil⟩
   · -- leaves
     intro tok w hT hres hw
@@ -133,13 +133,13 @@ theorem ctx_C04 (src : Str) (d : Nat)
     tokens (root frame, no induction hypothesis needed) -/
 theorem ctx_spine (line : Str) (d : Nat) : Ctx (spineP line 0) (Tk line) (C07.nestedOf d) := by
   refine ⟨?_, ?_, ?_, ?_, ?_, ?_, ?_⟩
-  · intro tok hT
+  · intro tok hT _
     refine (C07.C07_nested d tok).weaken ?_ (fun _ h => h)
     rintro w ⟨expanded, parts, rfl, hp⟩
     rw [G_word]
     exact ⟨⟨tok, hT, by simp, d, by simpa using hp⟩, fun h => by cases h⟩
   · rintro p s ps h; exact h
-  · intro tok hT
+  · intro tok hT _
     exact ⟨tok, hT, by simp, 0, C07.PartsOK.nil⟩
   · intro tok w hT hres hw
     exact ⟨Or.inl ⟨tok, hT, hres, hw, by simp⟩, ⟨tok, hT, hres, hw, by simp⟩,
